@@ -609,22 +609,25 @@ func (s *clientSocket) onEvent(
 		return
 	}
 
+	// The state is checked while `receiveBufferMu` is held. `onConnect` sets the state to connected,
+	// and then drains the buffer (see `emitBuffered`). If the state was checked before the mutex is locked,
+	// an event could be put into the buffer after it was drained. It would stay there until the next connection.
+	s.receiveBufferMu.Lock()
 	s.stateMu.RLock()
 	connected := s.state == clientSocketConnStateConnected
 	s.stateMu.RUnlock()
-	if connected {
-		return s.callEvent(handler, header, values, offset, sendAck)
-	} else {
-		s.receiveBufferMu.Lock()
-		defer s.receiveBufferMu.Unlock()
+	if !connected {
 		s.receiveBuffer = append(s.receiveBuffer, &clientEvent{
 			handler: handler,
 			header:  header,
 			values:  values,
 			offset:  offset,
 		})
+		s.receiveBufferMu.Unlock()
+		return
 	}
-	return
+	s.receiveBufferMu.Unlock()
+	return s.callEvent(handler, header, values, offset, sendAck)
 }
 
 func (s *clientSocket) callEvent(
